@@ -37,6 +37,30 @@ def build_classes(spec, faults):
         getter.__name__ = pname
         return getter
 
+    def make_property(p):
+        # The same descriptor reached four ways: the constructor, or the decorator-with-options form followed by the
+        # property-style .getter / .setter / .deleter chain (each step rebuilds the descriptor and must carry every
+        # option, invalidated_by included).  The chained setter / deleter do exactly what the built-in override slot does.
+        g = make_getter(p["name"], p["reads"])
+        kw = dict(cache=p["cache"], overridable=p.get("overridable", True),
+                  invalidated_by=list(p["invalidated_by"]) if p["invalidated_by"] else None)
+        style = p.get("style", "ctor")
+        name = p["name"]
+        if style == "ctor":
+            return spec_property(g, **kw)
+        if style == "getter":
+            return spec_property(**kw)(lambda self: None).getter(g)
+        if style == "setter":
+            def fset(self, value):
+                self.__dict__[name] = value
+            return spec_property(**kw)(g).setter(fset)
+
+        def fdel(self):
+            if name not in self.__dict__:
+                raise AttributeError(name)
+            del self.__dict__[name]
+        return spec_property(**kw)(g).deleter(fdel)
+
     def namespace(attrs, props, post_init_reads):
         ns = {"__module__": "specsim.generated"}
         ann = {}
@@ -52,9 +76,7 @@ def build_classes(spec, faults):
                 ns[a["name"]] = list(dflt) if isinstance(dflt, list) else dflt
         ns["__annotations__"] = ann
         for p in props:
-            ns[p["name"]] = spec_property(make_getter(p["name"], p["reads"]), cache=p["cache"],
-                                          overridable=p.get("overridable", True),
-                                          invalidated_by=list(p["invalidated_by"]) if p["invalidated_by"] else None)
+            ns[p["name"]] = make_property(p)
         if post_init_reads is not None:
             def post_init(self):
                 self.u = 0  # unmanaged attribute
@@ -132,7 +154,7 @@ class C11(Check):
                     deps[0] = props[-1]["name"]
                 reads = list(deps)
             props.append({"name": name, "cache": src.chance(0.65), "invalidated_by": deps, "reads": reads,
-                          "overridable": True})
+                          "overridable": True, "style": src.choice(["ctor", "ctor", "getter", "setter", "deleter"])})
         spec = {"attrs": attrs, "props": props, "eager": src.chance(0.4),
                 "post_init_bump": src.choice([None, None, "a", "b"]),
                 "post_init_reads": src.sample([p["name"] for p in props], src.randint(0, len(props)))}
@@ -141,7 +163,7 @@ class C11(Check):
             deps = src.sample(cands, src.randint(1, 2))
             spec["sub"] = {"kind": src.choice(["spec", "spec", "plain"]),
                            "props": [{"name": "s0", "cache": src.chance(0.7), "invalidated_by": deps, "reads": list(deps),
-                                      "overridable": True}]}
+                                      "overridable": True, "style": src.choice(["ctor", "ctor", "setter", "deleter"])}]}
         return spec
 
     # -- reference evaluation -------------------------------------------------------------------
